@@ -43,6 +43,7 @@ def bounds(chk, fl, qual, args, rule):
 
 def run(chk):
     idx = chk.idx
+    R.rule_stateless(chk, "C11.R6")  # first: its refutations stand even if a later rule cannot read the code
     reg = nnm.registry(idx)
     fl = nnm.flow(idx, reg)
     chk.explain(
